@@ -6,7 +6,10 @@ import json, os, re, shutil, glob
 ROOT = os.path.dirname(os.path.dirname(os.path.abspath(__file__)))
 S = os.path.join(ROOT, "seeded")
 trials = {}
-for f in sorted(glob.glob(os.path.join(S, "logs", "*.log"))):
+def _natural(f):
+    m = re.search(r"batch(\d+)(.*)\.log$", os.path.basename(f))
+    return (int(m.group(1)), m.group(2)) if m else (0, os.path.basename(f))
+for f in sorted(glob.glob(os.path.join(S, "logs", "*.log")), key=_natural):
     for line in open(f):
         m = re.match(r"RESULT (m\d)/(C\d\d) (C\d\d) exit=(\d+) (\d+) violation line\(s\):\s*(.*)", line.strip())
         if not m:
